@@ -20,6 +20,8 @@ CONSTANTS
   Deviations = {"F12", "F14"}
   MaxApps = 1
   MaxSucc = 6
+  CapX = {}
+  CapY = {}
   Depth = 22
   BootSize = 0
   WProgress = 60
